@@ -255,6 +255,8 @@ func registry() map[string]PropSpec {
 				What: "slice, map, nested struct, pointer-to-struct (with alias) fields and an ordered inline *MapSA: append/fill/zero semantics, nested alias precedence, leftovers in document order"},
 			{Pkg: "ordered", Name: "c16_inline_struct", Quick: map[string]int{}, Unwind: [2]int{48, 64},
 				What: "inline pointer-to-struct (the CommandStep pattern): leftovers of the outer level are partitioned again by the inline struct"},
+			{Pkg: "ordered", Name: "c16_scalar_kinds", Quick: map[string]int{}, Unwind: [2]int{48, 64},
+				What: "unmarshalScalar: every scalar kind (string, int, float, bool) into every scalar-accepting destination (string, int, float, bool, any, []any, []string, []int): copied, appended, formatted, or an error - never silently converted or dropped"},
 		},
 		Outside: []string{
 			"`equals what yaml.Node.Decode produces`: needs yaml.v3's reflective decoder, which a hand-written SSA executor cannot run - not claimed",
